@@ -8,6 +8,7 @@
 (*   [k |-> "while", t, body, orelse]                                        *)
 (*   [k |-> "for",   t, body, orelse]      t in {"empty","one","many","U"}    *)
 (*   [k |-> "with",  body]                                                   *)
+(*   [k |-> "try",   body, handler, final] `except Exception:` / `finally:`   *)
 (*   [k |-> "return"], [k |-> "raise"], [k |-> "break"], [k |-> "continue"]   *)
 (*   [k |-> "assert", t]                                                     *)
 (* "U" is a condition the analysis cannot know: every evaluation may go      *)
@@ -32,6 +33,7 @@ CONSTANTS
     Iters,        \* {"empty","one","many","U"}
     Compounds,    \* compound kinds used: subset of {"if","while","for","with"}
     Depth,        \* nesting depth of the generated shapes (1 or 2)
+    Tails,        \* what may follow the inner compound statement at depth 2: subset of {"mark","return","raise","break","continue"}
     InLoop,       \* BOOLEAN: also embed every shape in the body of a loop
     MaxIter       \* loop iterations explored (2)
 
@@ -50,10 +52,15 @@ Comp(bodies, orelses) ==
     \cup (IF "while" \in Compounds THEN {[k |-> "while", t |-> t, body |-> b, orelse |-> o] : t \in Tests, b \in bodies, o \in orelses} ELSE {})
     \cup (IF "for" \in Compounds THEN {[k |-> "for", t |-> t, body |-> b, orelse |-> o] : t \in Iters, b \in bodies, o \in orelses} ELSE {})
     \cup (IF "with" \in Compounds THEN {[k |-> "with", body |-> b, orelse |-> <<>>] : b \in bodies} ELSE {})
+    \cup (IF "try" \in Compounds
+           THEN {[k |-> "try", body |-> b, handler |-> hf[1], final |-> hf[2], orelse |-> <<>>] :
+                    b \in bodies, hf \in {<<<<Mark>>, <<>>>>, <<<<>>, <<Mark>>>>, <<<<Mark>>, <<Mark>>>>, <<<<[k |-> "return"]>>, <<>>>>}}
+           ELSE {})
 
 C1 == Comp(Blocks0, OrElse0)
 \* depth 2: a compound whose body is a depth-1 compound followed by a mark
-Blocks1 == {<<c, Mark>> : c \in C1}
+TailStmt(x) == IF x = "mark" THEN Mark ELSE [k |-> x]
+Blocks1 == {<<c, TailStmt(x)>> : c \in C1, x \in Tails}
 C2 == Comp(Blocks1, {<<>>, <<Mark>>})
 
 TopStmts == IF Depth = 1 THEN C1 ELSE C2
@@ -65,11 +72,16 @@ Shapes == Plain \cup (IF InLoop THEN Looped ELSE {})
 (* continuation frames                                                      *)
 (*   [f |-> "seq", stmts, path, idx]   the rest of a block; next statement has index idx *)
 (*   [f |-> "loop", s, path, n]        a loop whose body is running (n = iterations started) *)
+(*   [f |-> "try", s, path, stage]     a try statement whose body / handler is running      *)
+(*   [f |-> "fin", pend]               a finally block is running; pend = what is resumed    *)
+(*                                     afterwards: "none" | "ret" | "exc" | "break" | "continue" *)
 VARIABLES shape, K, status     \* status: "run" | "ret" | "exc" | "end" | "cut"
 vars == <<shape, K, status>>
 
 SeqF(stmts, path, idx) == [f |-> "seq", stmts |-> stmts, path |-> path, idx |-> idx]
 LoopF(s, path, n) == [f |-> "loop", s |-> s, path |-> path, n |-> n]
+TryF(s, path, stage) == [f |-> "try", s |-> s, path |-> path, stage |-> stage]
+FinF(pend) == [f |-> "fin", pend |-> pend]
 
 \* well-formedness of the generated shapes: break / continue only inside loops
 RECURSIVE WF(_, _)
@@ -79,6 +91,7 @@ WF(block, inloop) ==
         CASE s.k \in {"break", "continue"} -> inloop
           [] s.k = "if" -> WF(s.body, inloop) /\ WF(s.orelse, inloop)
           [] s.k = "with" -> WF(s.body, inloop)
+          [] s.k = "try" -> WF(s.body, inloop) /\ WF(s.handler, inloop) /\ WF(s.final, inloop)
           [] s.k \in {"while", "for"} -> WF(s.body, TRUE) /\ WF(s.orelse, inloop)
           [] OTHER -> TRUE
 
@@ -89,9 +102,6 @@ Init == /\ shape \in {x \in Shapes : WF(x, FALSE)}
 Top == K[Len(K)]
 Pop == SubSeq(K, 1, Len(K) - 1)
 
-\* innermost loop frame index, 0 if none
-LoopIdx == LET S == {i \in 1..Len(K) : K[i].f = "loop"} IN IF S = {} THEN 0 ELSE CHOOSE i \in S : \A j \in S : j <= i
-
 \* may the test be true / false
 CanT(t) == t \in {"T", "U"}
 CanF(t) == t \in {"F", "U"}
@@ -99,7 +109,25 @@ CanF(t) == t \in {"F", "U"}
 CanIter(t, n) == CASE t = "empty" -> FALSE [] t = "one" -> n = 1 [] t = "many" -> n <= MaxIter [] t = "U" -> n <= MaxIter
 CanStop(t, n) == CASE t = "empty" -> TRUE [] t = "one" -> n = 2 [] t = "many" -> n = MaxIter + 1 [] t = "U" -> TRUE
 
-\* a block is finished: pop its frame (a loop frame below it takes the next decision)
+(* An abrupt completion (return, exception, break, continue) leaves the frames of the stack S one by one   *)
+(* until a frame intercepts it: a try statement whose body raised runs its handler; a try statement with a   *)
+(* finally clause runs that clause and resumes the completion afterwards; a loop takes break / continue.     *)
+RECURSIVE Unwind(_, _)
+Unwind(kind, S) ==
+    IF S = <<>> THEN [K |-> <<>>, status |-> IF kind = "ret" THEN "ret" ELSE "exc"]
+    ELSE LET fr == S[Len(S)]
+             below == SubSeq(S, 1, Len(S) - 1)
+         IN IF fr.f = "try"
+              THEN IF kind = "exc" /\ fr.stage = "body" /\ fr.s.handler # <<>>
+                     THEN [K |-> below \o <<TryF(fr.s, fr.path, "handler"), SeqF(fr.s.handler, fr.path \o <<3>>, 1)>>, status |-> "run"]
+                   ELSE IF fr.s.final # <<>>
+                     THEN [K |-> below \o <<FinF(kind), SeqF(fr.s.final, fr.path \o <<4>>, 1)>>, status |-> "run"]
+                   ELSE Unwind(kind, below)
+            ELSE IF fr.f = "loop" /\ kind = "break" THEN [K |-> below, status |-> IF below = <<>> THEN "end" ELSE "run"]
+            ELSE IF fr.f = "loop" /\ kind = "continue" THEN [K |-> S, status |-> "run"]
+            ELSE Unwind(kind, below)
+
+\* a block is finished: pop its frame (a loop / try / finally frame below it takes the next decision)
 BlockDone ==
     /\ status = "run" /\ K # <<>> /\ Top.f = "seq" /\ Top.stmts = <<>>
     /\ K' = Pop
@@ -123,31 +151,43 @@ LoopNext ==
              /\ K' = K /\ status' = "cut"
     /\ UNCHANGED shape
 
+\* the body or the handler of a try statement completed normally: run the finally clause, if any
+TryNext ==
+    /\ status = "run" /\ K # <<>> /\ Top.f = "try"
+    /\ K' = IF Top.s.final # <<>> THEN Pop \o <<FinF("none"), SeqF(Top.s.final, Top.path \o <<4>>, 1)>> ELSE Pop
+    /\ status' = "run"
+    /\ UNCHANGED shape
+
+\* a finally clause completed normally: resume what it interrupted
+FinNext ==
+    /\ status = "run" /\ K # <<>> /\ Top.f = "fin"
+    /\ IF Top.pend = "none" THEN K' = Pop /\ status' = "run"
+       ELSE LET r == Unwind(Top.pend, Pop) IN K' = r.K /\ status' = r.status
+    /\ UNCHANGED shape
+
 Exec ==
     /\ status = "run" /\ K # <<>> /\ Top.f = "seq" /\ Top.stmts # <<>>
     /\ LET s == Head(Top.stmts)
            me == Top.path \o <<Top.idx>>
            rest == Pop \o <<SeqF(Tail(Top.stmts), Top.path, Top.idx + 1)>>
+           abrupt(kind) == LET r == Unwind(kind, Pop) IN K' = r.K /\ status' = r.status
        IN CASE s.k = "mark" -> K' = rest /\ status' = "run"
             [] s.k = "if" ->
                  \/ CanT(s.t) /\ K' = rest \o <<SeqF(s.body, me \o <<1>>, 1)>> /\ status' = "run"
                  \/ CanF(s.t) /\ K' = rest \o <<SeqF(s.orelse, me \o <<2>>, 1)>> /\ status' = "run"
             [] s.k = "with" -> K' = rest \o <<SeqF(s.body, me \o <<1>>, 1)>> /\ status' = "run"
+            [] s.k = "try" -> K' = rest \o <<TryF(s, me, "body"), SeqF(s.body, me \o <<1>>, 1)>> /\ status' = "run"
             [] s.k \in {"while", "for"} -> K' = rest \o <<LoopF(s, me, 0)>> /\ status' = "run"
-            [] s.k = "return" -> K' = <<>> /\ status' = "ret"
-            [] s.k = "raise" -> K' = <<>> /\ status' = "exc"
+            [] s.k = "return" -> abrupt("ret")
+            [] s.k = "raise" -> abrupt("exc")
             [] s.k = "assert" ->
                  \/ CanT(s.t) /\ K' = rest /\ status' = "run"
-                 \/ CanF(s.t) /\ K' = <<>> /\ status' = "exc"
-            [] s.k = "break" ->
-                 IF LoopIdx = 0 THEN K' = <<>> /\ status' = "exc"      \* not generated: break outside a loop
-                 ELSE K' = SubSeq(K, 1, LoopIdx - 1) /\ status' = IF LoopIdx = 1 THEN "end" ELSE "run"
-            [] s.k = "continue" ->
-                 IF LoopIdx = 0 THEN K' = <<>> /\ status' = "exc"
-                 ELSE K' = SubSeq(K, 1, LoopIdx) /\ status' = "run"
+                 \/ CanF(s.t) /\ abrupt("exc")
+            [] s.k = "break" -> abrupt("break")        \* outside a loop (not generated): ends as an exception
+            [] s.k = "continue" -> abrupt("continue")
     /\ UNCHANGED shape
 
-Next == BlockDone \/ LoopNext \/ Exec
+Next == BlockDone \/ LoopNext \/ TryNext \/ FinNext \/ Exec
 Spec == Init /\ [][Next]_vars
 
 \* every state in which an observable statement is about to run reports its path
